@@ -52,7 +52,9 @@ Theorem C19_installed_table : forall r,
                 | RBound | RSlotsObj => IWrapper
                 | RCallableObj | RNcObj => IObj
                 | RNonCallable | RNcNonCallable => IPlain
-                | RNcSlots => ISlots
+                | RNcSlots => ISlots RefAttr
+                | RNcFrozen | RNcType => ISlots RefType
+                | RNcRaiser => ISlots RefOther
                 end.
 Proof. exact installed_table. Qed.
 Print Assumptions C19_installed_table.
@@ -77,13 +79,60 @@ Print Assumptions C19_restored_prog.
 
 (* a successful activation installs the replacement; a failed one leaves everything as it was *)
 Theorem C19_enter_installs : forall w st p st' sp,
-  enter w st p = (st', RDone) -> specs w p = Some sp -> own st' (ptarget sp) = Some (ONew p).
+  enter w st p = (st', RDone) -> specs w p = Some sp ->
+  own st' (ptarget sp) = Some (new_obj p (prk sp) (gen st p)) /\ gen st' p = gen st p + 1.
 Proof. exact enter_installs. Qed.
 Print Assumptions C19_enter_installs.
 
 Theorem C19_enter_failure_restores : forall w st p st' e, enter w st p = (st', RFail e) -> st' = st.
 Proof. exact enter_failure_restores. Qed.
 Print Assumptions C19_enter_failure_restores.
+
+(* which replacements make attaching .asynq/.asyncio fail, and with which exception; a replacement
+   given as new= never does (it has been wrapped) *)
+Theorem C19_attach_failure_spec : forall r,
+  attach_failure (installed r) =
+    match r with
+    | RNcSlots => Some E_ATTRIBUTE
+    | RNcFrozen | RNcType => Some E_TYPE
+    | RNcRaiser => Some E_RUNTIME
+    | _ => None
+    end.
+Proof. exact attach_failure_spec. Qed.
+Print Assumptions C19_attach_failure_spec.
+
+(* an attribute-refusing product of new_callable, WHATEVER exception class it refuses with: the
+   activation leaves the state exactly as it was (nothing patched, nothing saved, nothing started)
+   and re-raises that exception *)
+Theorem C19_enter_refusal : forall w st p sp r,
+  specs w p = Some sp -> installed (prk sp) = ISlots r -> current w st (ptarget sp) <> None ->
+  enter w st p = (st, RFail (refusal_exn r)).
+Proof. exact enter_refusal. Qed.
+Print Assumptions C19_enter_refusal.
+
+(* the same patcher activated again (any op list in between): a replacement that is made per
+   activation (default mock, new_callable) is a different object each time, an explicit new= object
+   is the same object; and every convention of a probe reaches the object that is in place now *)
+Theorem C19_reactivation_fresh : forall w st p sp st1 ops st2,
+  specs w p = Some sp -> per_activation (prk sp) = true ->
+  enter w st p = (st1, RDone) -> enter w (exec w st1 ops) p = (st2, RDone) ->
+  own st2 (ptarget sp) <> own st1 (ptarget sp).
+Proof. exact reactivation_fresh. Qed.
+Print Assumptions C19_reactivation_fresh.
+
+Theorem C19_reactivation_same : forall w st p sp st1 ops st2,
+  specs w p = Some sp -> per_activation (prk sp) = false ->
+  enter w st p = (st1, RDone) -> enter w (exec w st1 ops) p = (st2, RDone) ->
+  own st2 (ptarget sp) = own st1 (ptarget sp).
+Proof. exact reactivation_same. Qed.
+Print Assumptions C19_reactivation_same.
+
+Theorem C19_probe_reaches_current : forall w st t args cur cs,
+  probe w st t args = RProbe cur cs ->
+  cur = current w st t /\
+  forall c, In c cs -> c = CNotCallable \/ exists o recv b, cur = Some o /\ c = CReached o recv b.
+Proof. exact probe_reaches_current. Qed.
+Print Assumptions C19_probe_reaches_current.
 
 (* once restored, all four conventions reach the original again *)
 Theorem C19_original_reached :
